@@ -257,3 +257,8 @@ Section Proofs.
     rewrite map_app, zsum_app. fold (zsum (map a2 c)). cbn [zsum] in IH. unfold zsum in *. lia.
   Qed.
 End Proofs.
+
+Lemma decompose_example_ok :
+  decompose_rings [ [(0,0);(10,0);(10,10);(0,10)]; [(1,9);(9,9);(9,1);(1,1)]; [(2,2);(8,2);(8,8);(2,8)];
+                    [(3,4);(4,4);(4,3);(3,3)]; [(20,0);(22,0);(22,2);(20,2)] ] = [[0; 1]; [2; 3]; [4]].
+Proof. vm_compute. reflexivity. Qed.
